@@ -1,11 +1,18 @@
 (* C05 -- property theorems only.  Statements are about the model of tensorly/tenalg/svd.py (Model/Svd.v).
    LAPACK's svd is an arbitrary function `oracle` constrained only by the contract hypotheses
-   (shape_contract / svd_contract); matrices over R are lists of rows read through mget Rops. *)
+   (shape_contract / svd_contract); matrices over R are lists of rows read through mget Rops.
+   Round 5 (end of file): the Eckart-Young-Mirsky inequality is PROVED (C05_eckart_young, C05_eckart_young_fn, C05_eckart_young_orth), so "best approximation of that
+   rank" is a full theorem for truncated_svd (C05_interface_best_approx, _gen, also under a mask) and symeig_svd (C05_symeig_*_best,
+   C05_interface_symeig_best); randomized_svd of the model end to end under the range-covering hypothesis
+   (C05_randomized_svd_*_partial, C05_interface_randomized_*_partial; C05_range_finder_covers derives the hypothesis from the
+   reduced-QR contract and a spanning sketch); svd_interface for ANY back end incl. a callable (C05_interface_generic,
+   C05_interface_masked_generic), the non_negative option for every method / mask / flip (C05_interface_nonneg), and the
+   post-processing pipeline as a trace re-derived from the Python source on every run (C05_interface_traced). *)
 From Coq Require Import List Arith Bool Reals.
 From TLV Require Import Base.Ops Base.Tensor Base.RSum Model.Svd Proofs.SvdProofsAux Proofs.SvdProofs
   Proofs.SvdNNProofs Proofs.SvdSymeigProofs Proofs.SvdRandProofs Proofs.SvdInterfaceProofs
   Proofs.SvdGramProofs Proofs.SvdSymeigFull Proofs.SvdMaskProofs Proofs.SvdDecisions
-  Proofs.SvdWitness Proofs.SvdSymeigShapes Proofs.SvdEckartYoung Proofs.SvdRandE2E Proofs.SvdInterfaceAll.
+  Proofs.SvdWitness Proofs.SvdSymeigShapes Proofs.SvdEckartYoung Proofs.SvdRandE2E Proofs.SvdInterfaceAll Proofs.SvdSymeigBest Base.BigSum Model.SvdConj Proofs.SvdConjProofs.
 Import ListNotations.
 Local Open Scope nat_scope.
 
@@ -716,3 +723,144 @@ Theorem C05_interface_masked_generic : forall (funs : fname -> nat -> list (list
        exists imax, imax < d1 /\ forall i, (Rabs (mget Rops U i t) <= mget Rops U imax t)%R).
 Proof. exact interface_masked_generic. Qed.
 Print Assumptions C05_interface_masked_generic.
+
+(* --- Eckart-Young for an ORTHOGONAL (not normalised) decomposition M = sum_t a_t v_t^T with a_a . a_b = lam_a [a = b], v_t
+       orthonormal, lam non-increasing, zero values allowed (FULL; reduces to C05_eckart_young_fn on the prefix of positive lam) --- *)
+Theorem C05_eckart_young_orth : forall m n p k (M A V B : nat -> nat -> R) (lam : nat -> R),
+  (forall a b, a < p -> b < p -> rsum m (fun i => (A i a * A i b)%R) = if Nat.eqb a b then lam a else 0%R) ->
+  orthonormal_rows p n V ->
+  (forall i j, i <= j -> j < p -> (lam j <= lam i)%R) ->
+  (forall i j, i < m -> j < n -> M i j = rsum p (fun t => (A i t * V t j)%R)) ->
+  (exists X Y : nat -> nat -> R, forall i j, i < m -> j < n -> B i j = rsum k (fun t => (X i t * Y t j)%R)) ->
+  (rsum (p - k) (fun t => lam (k + t)%nat) <= rsum m (fun i => rsum n (fun j => ((M i j - B i j)^2)%R)))%R.
+Proof. exact eckart_young_orth. Qed.
+Print Assumptions C05_eckart_young_orth.
+
+(* --- symeig_svd returns a BEST approximation of its rank (FULL): both branches, every n_eigenvecs; eigh any function whose answer on
+       the Gram matrix the code builds meets eigh_contract2 with ascending eigenvalues (numpy's order), kept eigenvalues above eps;
+       p = min(min(shape), clamped n_eigenvecs) = the number of returned singular values --- *)
+Theorem C05_symeig_wide_best : forall (eigh : list (list R) -> list R * list (list R)) eps (M : list (list R)) d1 d2 n lam W,
+  d1 <= d2 -> rect d1 d2 M ->
+  eigh (mmul Rops d2 (transp Rops d2 M) M) = (lam, W) ->
+  eigh_contract2 d2 (mmul Rops d2 (transp Rops d2 M) M) lam W -> ascending lam ->
+  let p := Nat.min (Nat.min d1 d2) (n_kept d1 d2 n) in
+  (forall t, t < p -> (0 <= eps < nth (d2 - 1 - t) lam 0)%R) ->
+  let '(U, Sg, V) := symeig_svd Rops eigh sqrt eps M d1 d2 n in
+  forall B, rank_le d1 d2 p B ->
+    (frob2 d1 d2 (fun i j => (mget Rops M i j - recon U Sg V i j)%R) <= frob2 d1 d2 (fun i j => (mget Rops M i j - B i j)%R))%R.
+Proof. exact symeig_wide_best. Qed.
+Print Assumptions C05_symeig_wide_best.
+
+Theorem C05_symeig_tall_best : forall (eigh : list (list R) -> list R * list (list R)) eps (M : list (list R)) d1 d2 n lam W,
+  d2 < d1 -> rect d1 d2 M ->
+  eigh (mmul Rops d1 M (transp Rops d2 M)) = (lam, W) ->
+  eigh_contract2 d1 (mmul Rops d1 M (transp Rops d2 M)) lam W -> ascending lam ->
+  let p := Nat.min (Nat.min d1 d2) (n_kept d1 d2 n) in
+  (forall t, t < p -> (0 <= eps < nth (d1 - 1 - t) lam 0)%R) ->
+  let '(U, Sg, V) := symeig_svd Rops eigh sqrt eps M d1 d2 n in
+  forall B, rank_le d1 d2 p B ->
+    (frob2 d1 d2 (fun i j => (mget Rops M i j - recon U Sg V i j)%R) <= frob2 d1 d2 (fun i j => (mget Rops M i j - B i j)%R))%R.
+Proof. exact symeig_tall_best. Qed.
+Print Assumptions C05_symeig_tall_best.
+
+(* through svd_interface(method = 'symeig_svd'), any flip, clamped n_eigenvecs <= min(shape) *)
+Theorem C05_interface_symeig_best : forall (eigh : list (list R) -> list R * list (list R)) (funs : fname -> nat -> list (list R) -> triple R)
+    epsd (M : list (list R)) d1 d2 n lam W flip ub iters sq eps U Sg V,
+  rect d1 d2 M -> 1 <= d1 ->
+  let d := if d2 <? d1 then d1 else d2 in
+  let Gm := if d2 <? d1 then mmul Rops d1 M (transp Rops d2 M) else mmul Rops d2 (transp Rops d2 M) M in
+  (forall G0, length (fst (eigh G0)) = d /\ rect d d (snd (eigh G0))) ->
+  eigh Gm = (lam, W) -> eigh_contract2 d Gm lam W -> ascending lam ->
+  let k := n_kept d1 d2 n in
+  k <= Nat.min d1 d2 ->
+  (forall t, t < k -> (0 <= epsd < nth (d - 1 - t) lam 0)%R) ->
+  (forall cl X, funs FSymeig cl X = symeig_svd Rops eigh sqrt epsd X d1 d2 n) ->
+  svd_interface Rops funs MSymeig d2 M n flip ub None None iters sq eps = Ok (U, Sg, V) ->
+  rank_le d1 d2 k (recon U Sg V) /\
+  forall B, rank_le d1 d2 k B ->
+    (frob2 d1 d2 (fun i j => (mget Rops M i j - recon U Sg V i j)%R) <= frob2 d1 d2 (fun i j => (mget Rops M i j - B i j)%R))%R.
+Proof. exact interface_symeig_best. Qed.
+Print Assumptions C05_interface_symeig_best.
+
+(* all hypotheses of C05_interface_symeig_e2e / C05_interface_symeig_best hold jointly on M = [[2]] (Gram matrix [[4]], eps = 1) *)
+Example C05_symeig_interface_hyps_satisfiable : forall (tr ra us : nat -> list (list R) -> triple R),
+  let eigh := fun _ : list (list R) => ([4], [[1]])%R in
+  let M := [[2]]%R in
+  let funs := svd_funs tr (fun _ X => symeig_svd Rops eigh sqrt 1%R X 1 1 (Some 1)) ra us in
+  rect 1 1 M /\ 1 <= 1 /\
+  (forall G0, length (fst (eigh G0)) = 1 /\ rect 1 1 (snd (eigh G0))) /\
+  eigh (mmul Rops 1 (transp Rops 1 M) M) = ([4], [[1]])%R /\
+  eigh_contract2 1 (mmul Rops 1 (transp Rops 1 M) M) [4]%R [[1]]%R /\ ascending [4]%R /\
+  n_kept 1 1 (Some 1) <= Nat.min 1 1 /\
+  (forall t, t < n_kept 1 1 (Some 1) -> (0 <= 1 < nth (1 - 1 - t) [4] 0)%R) /\
+  (forall cl X, funs FSymeig cl X = symeig_svd Rops eigh sqrt 1%R X 1 1 (Some 1)).
+Proof. exact symeig_interface_hyps_satisfiable. Qed.
+
+(* --- randomized_svd, direct branch, with the hypotheses pushed down to the oracles (PARTIAL only in the spanning statement): the LAST
+       tl.qr answer meets the reduced-QR contract, the last sketch M @ P spans the columns of M, LAPACK's contract holds for its
+       answer on the reduced matrix: then S >= 0 non-increasing, orthonormal factors, and no matrix of rank <= the clamped
+       n_eigenvecs is closer to M than the returned product --- *)
+Theorem C05_randomized_svd_direct_from_sketch_partial : forall (svd : list (list R) -> bool -> triple R) (qr : nat -> list (list R) -> list (list R))
+    (G M : list (list R)) d1 d2 n n_over n_iter U Sg V,
+  rect d1 d2 M -> 1 <= d1 ->
+  let k := n_kept d1 d2 n in
+  dec_rand_transposed d1 d2 k (Nat.min d1 d2) (dec_rand_ndims k n_over (Nat.max d1 d2)) = false ->
+  let idx := fst (final_test qr M d2 G n_iter) in
+  let P := snd (final_test qr M d2 G n_iter) in
+  let w := ncols P in
+  qr_ok d1 w (mmul Rops w M P) (qr idx (mmul Rops w M P)) ->
+  spans d1 d2 w (mget Rops M) (mget Rops (mmul Rops w M P)) ->
+  let c := Nat.min d1 w in
+  let Q := range_finder Rops qr M d2 G n_iter in
+  let Mred := mmul Rops d2 (transp Rops c Q) M in
+  (forall f, svd_contract c d2 (mget Rops Mred) f (svd Mred f)) ->
+  randomized_svd Rops svd qr G M d1 d2 n n_over n_iter = (U, Sg, V) ->
+  let kk := Nat.min k (Nat.max c d2) in
+  nonneg_list Sg /\ nonincreasing Sg /\
+  orthonormal_cols d1 (Nat.min kk c) (mget Rops U) /\ orthonormal_rows (Nat.min kk d2) d2 (mget Rops V) /\
+  (forall B, rank_le d1 d2 k B ->
+     (frob2 d1 d2 (fun i j => (mget Rops M i j - recon U Sg V i j)%R) <= frob2 d1 d2 (fun i j => (mget Rops M i j - B i j)%R))%R).
+Proof. exact randomized_svd_direct_from_sketch_partial. Qed.
+Print Assumptions C05_randomized_svd_direct_from_sketch_partial.
+
+(* ================= round 5, repo commits d995974 / ca31a67 (complex-aware symeig_svd and svd_flip) ================= *)
+(* --- the complex-aware model of svd_flip (Model/SvdConj.v: deciding factor times conj(phases), other factor times the phases) IS the
+       real model for real scalars (conjugation = identity, phase = np.sign), for every ordered-field record: all svd_flip / interface
+       theorems above are therefore statements about the code after ca31a67 --- *)
+Theorem C05_flip_conj_real : forall (F : Type) (Op : fops F) (U V : list (list F)) (ub : bool),
+  svd_flip_conj (f0 Op) (f1 Op) (fmul Op) (fun x => x) (fsign Op) (fun a b => fltb Op (fabs Op a) (fabs Op b)) U V ub
+  = svd_flip Op U V ub.
+Proof. exact @flip_conj_real. Qed.
+Print Assumptions C05_flip_conj_real.
+
+(* --- over ANY commutative ring with a conjugation cj (complex numbers, Gaussian rationals, ...; function level, sums = Base/BigSum.v):
+       multiplying the deciding factor by conj(g_t) and the other factor by g_t leaves the product sum_t U[i,t] s_t V[t,j] unchanged
+       whenever conj(g_t) g_t = 1 (unit phases), for the U-based and the V-based decision; and the deciding entry becomes its own
+       magnitude when phase / mag are tied by x conj(phase x) = mag x (np.sign and abs on complex numbers) --- *)
+Theorem C05_conj_flip_product_u : forall (K : Type) (rO rI : K) (radd rmul rsub : K -> K -> K) (ropp : K -> K),
+  ring_theory rO rI radd rmul rsub ropp (@eq K) ->
+  forall (cj : K -> K) (U V : nat -> nat -> K) (g s : nat -> K) (p : nat),
+  (forall t, t < p -> rmul (cj (g t)) (g t) = rI) ->
+  forall i j, bigsum K rO radd p (fun t => rmul (rmul (rmul (U i t) (cj (g t))) (s t)) (rmul (V t j) (g t)))
+            = bigsum K rO radd p (fun t => rmul (rmul (U i t) (s t)) (V t j)).
+Proof. exact conj_flip_product_u. Qed.
+Print Assumptions C05_conj_flip_product_u.
+
+Theorem C05_conj_flip_product_v : forall (K : Type) (rO rI : K) (radd rmul rsub : K -> K -> K) (ropp : K -> K),
+  ring_theory rO rI radd rmul rsub ropp (@eq K) ->
+  forall (cj : K -> K) (U V : nat -> nat -> K) (g s : nat -> K) (p : nat),
+  (forall t, t < p -> rmul (cj (g t)) (g t) = rI) ->
+  forall i j, bigsum K rO radd p (fun t => rmul (rmul (rmul (U i t) (g t)) (s t)) (rmul (V t j) (cj (g t))))
+            = bigsum K rO radd p (fun t => rmul (rmul (U i t) (s t)) (V t j)).
+Proof. exact conj_flip_product_v. Qed.
+Print Assumptions C05_conj_flip_product_v.
+
+Theorem C05_conj_flip_deciding : forall (K : Type) (rmul : K -> K -> K) (cj phase mag : K -> K) (U : nat -> nat -> K) (imax t : nat),
+  (forall x, rmul x (cj (phase x)) = mag x) ->
+  rmul (U imax t) (cj (phase (U imax t))) = mag (U imax t).
+Proof. exact conj_flip_deciding. Qed.
+Print Assumptions C05_conj_flip_deciding.
+
+(* the hypothesis `conj(g) g = 1` is satisfiable (here: integers, trivial conjugation, g = -1) *)
+Example C05_conj_flip_hyp_satisfiable : forall t : nat, t < 3 -> ((fun x : BinNums.Z => x) ((fun _ : nat => (-1)%Z) t) * (fun _ : nat => (-1)%Z) t = 1)%Z.
+Proof. intros t _. reflexivity. Qed.
